@@ -20,7 +20,7 @@ from lib import common as C
 
 ID = "C05"
 PROP_MODULES = ["GPVerif.Props.C05"]
-BUILD_TARGETS = ["GPVerif.Props.C05", "GPVerif.Gen.Formulas", "GPVerif.Model.Kernels"]
+BUILD_TARGETS = ["GPVerif.Props.C05", "GPVerif.Gen.Formulas", "GPVerif.Gen.KernelFormulas", "GPVerif.Model.Kernels"]
 RULE = ("per exported kernel class: random parameter values across their ranges (public setters), d in 1..4, "
         "n1 != n2, x2 absent / different / sharing rows with x1 / duplicated rows, ARD and non-ARD, batch; every "
         "path selector on and off (inputs.requires_grad, params.requires_grad, diag, trace_mode, lazy evaluation); "
@@ -35,14 +35,16 @@ ASSUMPTIONS = ["float64 only; tolerance 1e-10 relative + 1e-12*scale + first-ord
 EXHAUSTIVE = False
 
 GEN = os.path.join(C.LEAN_DIR, "GPVerif", "Gen", "Formulas.lean")
+GENK = os.path.join(C.LEAN_DIR, "GPVerif", "Gen", "KernelFormulas.lean")
 EPS = 2.0 ** -52
 RTOL, ATOL = 1e-10, 1e-12
 
 
 def generate(ctx):
     sys.path.insert(0, os.path.join(C.VERIF, "harness"))
-    from translate import g5_formulas
+    from translate import g5_formulas, g5_kernels
     ctx.notes["gen_changed"] = g5_formulas.generate(C.REPO, GEN)
+    ctx.notes["gen_kernels_changed"] = g5_kernels.generate(C.REPO, GENK)
 
 
 # ------------------------------------------------------------------------------------------- wire format
@@ -1375,6 +1377,90 @@ def misc_checks(ctx, rng, q):
     return finish
 
 
+def generated_kernels(ctx, rng, q):
+    """Translator test for `Gen/KernelFormulas.lean`: every regenerated kernel forward / distance helper is driven
+    (a) against the hand-written Spec in Lean (both in `Float`; the theorems `*_gen_eq_spec` say they are equal over ℝ)
+    and (b) against the real kernel it was generated from."""
+    import numpy as np
+    import torch
+    import gpytorch
+    from gpytorch.kernels.kernel import dist as real_dist, sq_dist as real_sq_dist
+    reps = 2 if ctx.quick else 15
+    work = []
+    fams = ["rbf", "matern1", "matern3", "matern5", "rq", "periodic", "cosine", "linear", "poly1", "poly2", "poly3",
+            "pp0", "pp1", "pp2", "pp3", "const"]
+    for rep in range(reps):
+        for fam in fams:
+            _B, d, n1, n2 = distinct_sizes(rng)
+            ardflag = fam not in NO_ARD and d > 1 and rng.random() < 0.5
+            spec = rand_leaf(rng, fam, d, ardflag)
+            x1, x2 = rand_x(rng, n1, d), rand_x(rng, n2, d)
+            k = build([spec], False)
+            full = lambda v: [float(t) for t in (v if len(v) == d else list(v) * d)]  # noqa: E731
+            g = lambda x: getp(x, 0, False)  # noqa: E731
+            mean = np.mean(np.array(x1), axis=0).tolist()
+            t = spec["t"]
+            if t == "rbf":
+                heads = [f"rbf {vec(full(g(k.lengthscale)))}", f"rbfgen {vec(full(g(k.lengthscale)))} "
+                         f"{vec((np.array(mean) / np.array(full(g(k.lengthscale)))).tolist())}"]
+            elif t == "matern":
+                heads = [f"matern {spec['nu2']} {vec(full(g(k.lengthscale)))} {vec(mean)}"]
+            elif t == "rq":
+                heads = [f"rq {vec(full(g(k.lengthscale)))} {num(g(k.alpha)[0])}"]
+            elif t == "periodic":
+                heads = [f"periodic {vec(full(g(k.lengthscale)))} {vec(full(g(k.period_length)))}"]
+            elif t == "cosine":
+                heads = [f"cosine {num(g(k.period_length)[0])}"]
+            elif t == "linear":
+                heads = [f"linear {vec(full(g(k.variance)))}", f"linearsame {vec(full(g(k.variance)))}"]
+            elif t == "poly":
+                heads = [f"{h} {num(g(k.offset)[0])} {int(k.power)}" for h in ("poly", "polyb", "polyd")]
+            elif t == "pp":
+                heads = [f"pp {int(k.q)} {vec(full(g(k.lengthscale)))}"]
+            else:
+                heads = [f"const {num(g(k.constant)[0])}"]
+            hs = [q.ask(f"GK {h} {mat(x1)} {mat(x2)}") for h in heads]
+            hspec = q.ask(f"K {tokens(spec, k, 0, False)} {mat(x1)} {mat(x2)}")
+            with warnings.catch_warnings():
+                warnings.simplefilter("ignore")
+                real = k(torch.tensor(x1, dtype=torch.float64), torch.tensor(x2, dtype=torch.float64)).to_dense().detach().numpy()
+            ctx.case({"gk": fam, "x1": x1, "x2": x2, "spec": spec}, sample={"generated": heads[0].split()[0], "d": d})
+            work.append((fam, heads, hs, hspec, real, slack(spec, x1, x2, False)))
+        # distance helpers against the real functions
+        _B, d, n1, n2 = distinct_sizes(rng)
+        x1, x2 = rand_x(rng, n1, d), rand_x(rng, n2, d)
+        X1, X2 = torch.tensor(x1, dtype=torch.float64), torch.tensor(x2, dtype=torch.float64)
+        mean = X1.mean(0).tolist()
+        for head, real in (("sqdist", real_sq_dist(X1, X2, False)), ("dist", real_dist(X1, X2, False)),
+                           ("sqdistsame", real_sq_dist(X1, X1.clone(), True)), ("distsame", real_dist(X1, X1.clone(), True))):
+            same = head.endswith("same")
+            h = q.ask(f"GK {head} {vec(mean)} {mat(x1)} {mat(x1 if same else x2)}")
+            ctx.case({"gk": head, "x1": x1, "x2": None if same else x2}, sample={"generated": head, "d": d})
+            work.append((head, [head], [h], None, real.numpy(), None))
+
+    def finish():
+        for fam, heads, hs, hspec, real, sl in work:
+            spec = parse_bits(q[hspec])[0] if hspec is not None else None
+            for head, h in zip(heads, hs):
+                gen = parse_bits(q[h])[0]
+                if spec is not None and not np.allclose(gen, spec, rtol=1e-11, atol=1e-13 * max(1.0, np.abs(spec).max())):
+                    ctx.broke("correspondence", f"generated `{head.split()[0]}` term vs hand-written Spec (Lean)",
+                              f"max diff {np.abs(gen - spec).max():.3e}")
+                if sl is not None:
+                    tol = RTOL * np.abs(gen) + ATOL * max(1.0, sl[0]) + sl[1]
+                    bad = np.abs(real - gen) > tol
+                elif head.startswith("dist"):
+                    off = ~np.eye(*gen.shape, dtype=bool) if head.endswith("same") else np.ones(gen.shape, dtype=bool)
+                    bad = (np.abs(real - gen) > 1e-7) & off          # sqrt of rounding; the zero-filled diagonal is a separate term
+                else:
+                    off = ~np.eye(*gen.shape, dtype=bool) if head.endswith("same") else np.ones(gen.shape, dtype=bool)
+                    bad = (np.abs(real - gen) > 1e-11 * (1 + np.abs(gen))) & off
+                if bad.any():
+                    ctx.broke("correspondence", f"generated `{head.split()[0]}` term vs the real function",
+                              f"max diff {np.abs(real - gen).max():.3e}")
+    return finish
+
+
 def interaction_terms(ctx, rng, q):
     """`gpytorch.utils.sum_interaction_terms` against Σ_{k=1..min(max_degree, D)} e_k(z) (Lean `esymm`), for every
     legal `dim` (-3, -4, -5) with the batch dimensions before and/or after the kernel axis, max_degree in
@@ -1485,7 +1571,8 @@ def correspondence(ctx):
             generated_terms(ctx, ctx.rng("gen"), q),
             task_kernels(ctx, ctx.rng("task"), q),
             misc_checks(ctx, ctx.rng("misc"), q),
-            interaction_terms(ctx, ctx.rng("interaction"), q)]
+            interaction_terms(ctx, ctx.rng("interaction"), q),
+            generated_kernels(ctx, ctx.rng("genk"), q)]
     covered |= {"RBFKernelGrad", "Matern52KernelGrad", "PolynomialKernelGrad", "RBFKernelGradGrad",
                 "IndexKernel", "MultitaskKernel", "LCMKernel"}
     q.run()
